@@ -254,8 +254,28 @@ pub fn check_inner(c: &Case, rec: &mut Rec, skip_sinclair2_down: bool) -> Result
             excluded += 1;
             continue;
         }
+        // a program polling one selector: the same selector is read right before and right after
+        // the event (both Sinclair rows, all rows, or one row in turn)
+        let poll_hi: u8 = match k % 3 {
+            0 => 0xE7,
+            1 => 0x00,
+            _ => !(1u8 << (k % 8)),
+        };
+        let got = port_in(&mut e, ((poll_hi as u16) << 8) | 0xFE)? & 0x1F;
+        rec.eval();
+        if got != m.select(poll_hi) {
+            return Err(format!("before event {} ({:?}): selector {:#04x} reads {:#04x}, AND of the selected half-rows is {:#04x}", k, ev, poll_hi, got, m.select(poll_hi)));
+        }
         apply(&mut e, ev);
         apply_model(&mut m, ev, c);
+        let got = port_in(&mut e, ((poll_hi as u16) << 8) | 0xFE)? & 0x1F;
+        rec.eval();
+        if got != m.select(poll_hi) {
+            return Err(format!(
+                "after event {} ({:?}): selector {:#04x}, which was also the last one read before the event, reads {:#04x}; AND of the selected half-rows is {:#04x}",
+                k, ev, poll_hi, got, m.select(poll_hi)
+            ));
+        }
         if (0..40).any(|p| m.held(p) >= 2) {
             overlap = true;
         }
@@ -440,7 +460,7 @@ pub fn replay(run: &mut Run, phase: &str, case: &serde_json::Value) -> Result<()
 }
 
 pub const LEVEL: &str = "exploration";
-pub const RULE: &str = "case = machine x (kempston, mouse) enabled x history of 1..200 press/release/move events over 40 keys, 7 compound keys, 2x5 Sinclair controls, 8 Kempston bits, 4 mouse buttons, wheel, motion; after EVERY event the emulated CPU reads (IN A,(C)) all 8 half-rows, 1..4 generated multi-row selectors (0x00 included), the Kempston port and the three mouse ports, each compared with a set model. non-trivial = at some point two sources held the same matrix position or two compound keys were held together, and a multi-row selector was read; distinct = hash of the case";
+pub const RULE: &str = "case = machine x (kempston, mouse) enabled x history of 1..200 press/release/move events over 40 keys, 7 compound keys, 2x5 Sinclair controls, 8 Kempston bits, 4 mouse buttons, wheel, motion; one selector (both Sinclair rows, all rows, or one row in turn) is read right before and right after EVERY event, as a program polling one row does; then the emulated CPU reads (IN A,(C)) all 8 half-rows, 1..4 generated multi-row selectors (0x00 included), the Kempston port and the three mouse ports, each compared with a set model. non-trivial = at some point two sources held the same matrix position or two compound keys were held together, and a multi-row selector was read; distinct = hash of the case";
 pub const ASSUMPTIONS: &[&str] = &[
     "keyboard matrix, compound-key and Sinclair tables are written from the hardware documentation / property text, not from the implementation",
     "mouse button bit = the value of the public KempstonMouseButton enum; only bits 0-4 of ULA reads are judged here (EAR bit belongs to C07/C11)",
